@@ -814,3 +814,60 @@ func disjuncts(e ast.Expr) []ast.Expr {
 	}
 	return []ast.Expr{e}
 }
+
+// precedes: statement a is an earlier sibling of n or of one of n's ancestors
+// (structural; positions are not reliable after the normalising pre-passes).
+func (fi *FuncInfo) precedes(a, n ast.Node) bool {
+	child := n
+	for p := fi.parent[child]; p != nil; child, p = p, fi.parent[p] {
+		var list []ast.Stmt
+		switch b := p.(type) {
+		case *ast.BlockStmt:
+			list = b.List
+		case *ast.CaseClause:
+			list = b.Body
+		case *ast.CommClause:
+			list = b.Body
+		}
+		for _, st := range list {
+			if st == child {
+				break
+			}
+			if st == a {
+				return true
+			}
+		}
+	}
+	return false
+}
+
+// Structural source order. After the normalising pre-passes token positions no
+// longer nest or order reliably, so "before", "after" and "after the end of"
+// are decided on the traversal order of the tree the rules see: startOf is a
+// node's pre-order index, endOf the first index after its subtree.
+var nodeOrd = map[ast.Node][2]int{}
+
+func indexOrder(files []*ast.File) {
+	k := len(nodeOrd) * 2 // keep indexes of different packages apart
+	for _, f := range files {
+		var stack []ast.Node
+		ast.Inspect(f, func(n ast.Node) bool {
+			if n == nil {
+				top := stack[len(stack)-1]
+				stack = stack[:len(stack)-1]
+				o := nodeOrd[top]
+				o[1] = k
+				nodeOrd[top] = o
+				return true
+			}
+			k++
+			nodeOrd[n] = [2]int{k, k}
+			stack = append(stack, n)
+			return true
+		})
+		k++
+	}
+}
+
+func startOf(n ast.Node) int { return nodeOrd[n][0] }
+func endOf(n ast.Node) int   { return nodeOrd[n][1] }
